@@ -121,7 +121,9 @@ def zdt_odt(view, p):
     return odt_fields_mem(view, p)
 
 
-def tz_bytes(view, p, n=24):
+def tz_bytes(view, p, n=None):
+    if n is None:
+        n = view.ex.mod.size_of(view.ex.mod.types['class.ace_time::TimeZone'])     # 24 on x86-64, smaller with 16-bit pointers
     return [view.load(view.ex.ptr_add(p, k), 1) for k in range(n)]
 
 
